@@ -12,10 +12,12 @@ QuickSp == {CanonSp,
             [CanonSp EXCEPT !.trailing = FALSE], [CanonSp EXCEPT !.tupleComma = TRUE],
             [CanonSp EXCEPT !.order = <<3, 1, 2>>], [CanonSp EXCEPT !.order = <<2, 3, 1>>, !.quote = "\"", !.trailing = FALSE]}
 DamageShapes == {<<3>>, <<1>>, <<0>>, <<2, 3>>, <<1, 1>>, <<2, 1, 2>>, <<3, 0>>, <<2, 2, 1, 2>>}
-MCDamageQuick == [version : {1, 2}, type : {"f8", "i2", "u1"}, shape : {<<3>>, <<0>>, <<2, 3>>, <<2, 1, 2>>}]
-                 \cup [version : {1}, type : {"f8", "i2"}, shape : {<<1100>>}]      \* data beyond any I/O buffer size
-MCDamageAll == [version : {1, 2, 3}, type : {"f8", "f4", "i2", "u1", "i8"}, shape : DamageShapes]
-               \cup [version : {1, 3}, type : {"f8", "f4", "i2", "u1"}, shape : {<<1100>>, <<33, 40>>}]
+MCDamageQuick == [version : {1, 2}, type : {"f8", "i2", "u1"}, shape : {<<3>>, <<0>>, <<2, 3>>, <<2, 1, 2>>}, gap : {0}]
+                 \cup [version : {1}, type : {"f8", "u1"}, shape : {<<3>>, <<2, 3>>}, gap : {1, 8, 16}]
+                 \cup [version : {1}, type : {"f8", "i2"}, shape : {<<1100>>}, gap : {0}]      \* data beyond any I/O buffer size
+MCDamageAll == [version : {1, 2, 3}, type : {"f8", "f4", "i2", "u1", "i8"}, shape : DamageShapes, gap : {0, 8}]
+               \cup [version : {1, 2}, type : {"f8", "u1", "i2"}, shape : {<<3>>, <<2, 3>>, <<0>>}, gap : {1, 2, 4, 16, 33, 63}]
+               \cup [version : {1, 3}, type : {"f8", "f4", "i2", "u1"}, shape : {<<1100>>, <<33, 40>>}, gap : {0}]
 
 \* every header length modulo 64 is exercised by the writer shapes
 ASSUME \A r \in 0..63 : \E sh \in MCWriterShapes : Len(WriterDict(sh)) % 64 = r
